@@ -839,8 +839,64 @@ class Guard:
         return 'Guard(%s %s)' % (s, 'cmp' if self.cmp else sorted(self.vals))
 
 
+def ok_summary(facts, pattern, depth=3):
+    """local functions whose success return implies that a call matching `pattern` returned
+    Ok/Some: every success path crosses the Ok edge of such a call (or of a member), or returns the
+    call's result directly. Used so that extracting `x()?; y()?` into a helper keeps the guards
+    `ok(x)` / `ok(y)` recognisable at the helper's call site."""
+    key = pattern if isinstance(pattern, str) else tuple(pattern)
+    cache = facts.__dict__.setdefault('_ok_summaries', {})
+    if key in cache:
+        return cache[key]
+    member = set()
+    cache[key] = member  # guards recursion
+    frontier = {facts.root_of(c.fn).path for sites in facts.callers_of(pattern).values() for c in sites}
+    for _round in range(depth):
+        added = set()
+        for path in sorted(frontier):
+            f = facts.fns.get(path)
+            if f is None or f.kind == 'closure' or path in member:
+                continue
+            if any(name_matches(p_, f.names) for p_ in ([pattern] if isinstance(pattern, str) else pattern)):
+                continue
+            if not (f.d.get('ret') or '').startswith(('std::result::Result<', 'core::result::Result<', 'std::option::Option<', 'core::option::Option<')):
+                continue
+            pats = ([pattern] if isinstance(pattern, str) else list(pattern)) + sorted(member)
+            g = Guard(call=pats, vals={'Ok', 'Some'})
+            edges = set()
+            for bb in range(f.nb):
+                if f.blocks[bb]['t']['k'] not in ('sw', 'assert'):
+                    continue
+                for si, fs in enumerate(edge_facts(f, bb)):
+                    if any(g.matches(x) for x in fs):
+                        edges.add((bb, si))
+            tail = {c.bb for c in f.calls if c.matches(pats) and c.t['d'] == [0, []]}
+            if not edges and not tail:
+                continue
+            r = reach(f, cut_edges=edges, cut_blocks=tail | error_blocks(f))
+            if not any(rb in r['term'] for rb in f.ret_blocks()):
+                added.add(path)
+        if not added:
+            break
+        member |= added
+        frontier = set()
+        for a in added:
+            for sites in facts.callers_of(a).values():
+                for c in sites:
+                    frontier.add(facts.root_of(c.fn).path)
+    return member
+
+
 def guard_edges(fn, guards):
     """set of (bb, succ_index) edges on which one of the guards holds."""
+    ext = []
+    for g in guards:
+        ext.append(g)
+        if g.call is not None and not g.cmp and g.vals and g.vals <= {'Ok', 'Some'} and g.where is None:
+            summ = ok_summary(fn.facts, g.call)
+            if summ:
+                ext.append(Guard(call=sorted(summ), vals=g.vals))
+    guards = ext
     edges = set()
     for bb in range(fn.nb):
         k = fn.blocks[bb]['t']['k']
